@@ -134,7 +134,7 @@ def run(ctx: Ctx) -> None:
     if thr_stmt is None:
         ctx.ob("C07.THRESHOLD", V, lp, "invalid = |dR + dL| > threshold", False, detail="the threshold comparison vanished")
     else:
-        ex = defs.expand(thr_stmt.value, thr_stmt, depth=1)
+        ex = defs.expand(thr_stmt.value, thr_stmt, depth=4, stop=("col_left", qname, inside_stmt.targets[0].id))
         insel = inside_stmt.targets[0].id
         lhs = f"abs({R}['disparity_map'].data[({row}, {qname}[{insel}])] + {L}['disparity_map'].data[({row}, col_left[{insel}])])"
         want = boolform(_e(f"abs({R}['disparity_map'].data[{row}, {qname}[{insel}]] + {L}['disparity_map'].data[{row}, col_left[{insel}]]) > self._threshold"))
@@ -148,7 +148,7 @@ def run(ctx: Ctx) -> None:
     cm = [st for st in walk_no_nested(lp) if isinstance(st, ast.Assign) and isinstance(st.targets[0], ast.Subscript) and canon(st.targets[0].value) == "conf_measure"]
     okc = False
     if cm and thr_stmt is not None:
-        okc = canon(defs.expand(cm[0].value, cm[0], depth=1)) == canon(defs.expand(thr_stmt.value.left, thr_stmt, depth=1)) and canon(cm[0].targets[0].slice) == f"({row}, col_left[{inside_stmt.targets[0].id}])"
+        okc = canon(defs.expand(cm[0].value, cm[0], depth=4, stop=("col_left", qname, inside_stmt.targets[0].id))) == canon(defs.expand(thr_stmt.value.left, thr_stmt, depth=4, stop=("col_left", qname, inside_stmt.targets[0].id))) and canon(cm[0].targets[0].slice) == f"({row}, col_left[{inside_stmt.targets[0].id}])"
     ctx.ob("C07.BAND", V, cm[0] if cm else lp, f"{src(cm[0])[:130] if cm else 'conf_measure store'}", okc, detail="the confidence band must hold |dL(p)+dR(q)| at the pixel p that was checked", expected=f"conf_measure[{row}, col_left[inside]] = abs(right_disp + left_disp)")
     ac = [c for c in calls_in(fn) if (dotted(c.func) or "").endswith("allocate_confidence_map")]
     okb = len(ac) == 1 and isinstance(ac[0].args[0], ast.Constant) and ac[0].args[0].value == "left_right_consistency" and [canon(a) for a in ac[0].args[1:3]] == ["conf_measure", L] and not enclosing_loops(ac[0])
@@ -191,7 +191,7 @@ def run(ctx: Ctx) -> None:
     rd = [st for st in walk_no_nested(lp) if isinstance(st, ast.Assign) and isinstance(st.targets[0], ast.Subscript) and canon(st.targets[0].value) == "disp_right"]
     if rd and bd:
         sel = bd[0].targets[0].id
-        okr = canon(rd[0].value) == f"{R}['disparity_map'].data[({row}, index[{sel}].astype(int))]" and canon(rd[0].targets[0].slice) == sel
+        okr = canon(defs.expand(rd[0].value, rd[0], depth=3, stop=("index", sel))) == f"{R}['disparity_map'].data[({row}, index[{sel}].astype(int))]" and canon(rd[0].targets[0].slice) == sel
         ctx.ob("C07.SEARCH", V, rd[0], src(rd[0])[:150], okr, expected=f"disp_right[{sel}] = {R}['disparity_map'].data[{row}, index[{sel}].astype(int)]", detail="candidates are read from the other map, same row")
     dr = [c for c in calls_in(fn) if (dotted(c.func) or "").endswith("extract_disparity_range_from_disparity_map")]
     ctx.ob("C07.SEARCH", V, dr[0] if dr else fn, src(dr[0]) if dr else "disparity_range", len(dr) == 1 and [canon(a) for a in dr[0].args] == [L], expected=f"extract_disparity_range_from_disparity_map({L})", detail="the searched interval is the checked dataset's own disparity_interval")
@@ -271,5 +271,6 @@ MUTANTS = [
     {"id": "no-mask-border", "file": V, "old": '        if dataset_left.attrs["offset_row_col"] > 0:\n            dataset_left["validity_mask"] = mask_border(dataset_left)\n\n        return dataset_left', "new": '        return dataset_left'},
     {"id": "eq-np-abs-vs-abs", "kind": "equiv", "file": V, "old": "invalid = np.abs(right_disp + left_disp) > self._threshold", "new": "invalid = abs(left_disp + right_disp) > self._threshold"},
     {"id": "eq-inside-chained", "kind": "equiv", "file": V, "old": "inside_right = np.where((col_right >= 0) & (col_right < nb_col))", "new": "inside_right = np.where((nb_col > col_right) & (0 <= col_right))"},
+    {"id": "eq-row-view-first", "kind": "equiv", "edits": [(V, 'right_disp = dataset_right["disparity_map"].data[row, col_right[inside_right]]', 'right_row = dataset_right["disparity_map"].data[row, :]\n            right_disp = right_row[col_right[inside_right]]'), (V, 'disp_right[inside_col_disp] = dataset_right["disparity_map"].data[row, index[inside_col_disp].astype(int)]', 'disp_right[inside_col_disp] = right_row[index[inside_col_disp].astype(int)]')]},
     {"id": "eq-outside-not-inside", "kind": "equiv", "file": V, "old": "outside_right = np.where((col_right < 0) | (col_right >= nb_col))", "new": "outside_right = np.where(~((col_right >= 0) & (col_right < nb_col)))"},
 ]
